@@ -528,13 +528,13 @@ func TestCheck(t *testing.T) {
 	run.Assume("single corruptions only; re-signing uses the real validators' keys so that only the semantic check can reject")
 	run.Assume("mutations that yield another valid block (fresh nonce / primary / next consensus with a valid signature, reordering or dropping transactions with a rebuilt signed header) are not corruptions and are not offered")
 	agedConflicts(t, run)
-	for i := 0; i < ev.Pick(4, 24); i++ {
+	for i := 0; i < ev.Pick(4, 60); i++ {
 		consensusChange(t, run, i, i%2 == 1)
 	}
-	for i := 0; i < ev.Pick(3, 12); i++ {
+	for i := 0; i < ev.Pick(3, 30); i++ {
 		conflictWindowEdge(t, run, i, i%2 == 1)
 	}
-	nh := ev.Pick(2, 6)
+	nh := ev.Pick(2, 14)
 	nstates := ev.Pick(6, 14)
 	nb := ev.Pick(40, 70)
 	for hi := 0; hi < nh; hi++ {
